@@ -18,7 +18,7 @@ WITNESSES = ["empty file", "file ends on piece boundary", "file one byte past bo
 def BOUNDS(tier):
     q = tier == "quick"
     return {"versions": "v1, v2, hybrid (hybrid with and without trailing padding entry)",
-            "shapes": "single, flat2, nested3" + ("" if q else ", order2, nested4"),
+            "shapes": "single, flat2, nested3, selfname, selfdir (an entry named like the torrent inside the root)" + ("" if q else ", order2, nested4"),
             "sizes": "each in [0, K*P], K=2 (3 for <= 2 files), total > 0", "piece_length": "{16, 32} KiB",
             "content path": "payload root and its parent", "metafile source": "reference encoder; TorrentFile/TorrentAssembler"
             + ("" if q else "; TorrentFileV2/TorrentFileHybrid"),
@@ -46,6 +46,11 @@ def jobs(tier):
                         out.append(("v%d.%s.P%d.own" % (version, shape, P), "job_recheck", dict(base, source="own")))
                         if not q and version > 1:
                             out.append(("v%d.%s.P%d.own-class" % (version, shape, P), "job_recheck", dict(base, source="ownc")))
+    for version in (1, 2, 3):
+        for shape in ("selfname", "selfdir"):
+            for cpath in ("root", "parent"):
+                out.append(("v%d.%s.P16384.%s.ref" % (version, shape, cpath), "job_recheck",
+                            dict(prop="C05", version=version, shape=shape, P=16384, K=2, dmg=["intact", "intact"], cpath=cpath, source="ref")))
     out.append(("v2.single.P16384.root.ref-nolength", "job_recheck",
                 dict(prop="C05", version=2, shape="single", P=16384, K=3, dmg=["intact"], cpath="root", source="ref",
                      v2_single_length=False)))
